@@ -382,15 +382,16 @@ func (o *Op) ModelLine(obs *Obs) string {
 
 // Obs is what the implementation answered, canonicalised.
 type Obs struct {
-	Events   []string
-	NewID    string
-	CopyETag string
-	Status   int
-	Code     string
-	Fields   []KV
-	NewVid   string
-	NewVids  []string
-	Raw      gw.Resp
+	Events    []string
+	EventVids []string // "<event name> <hex key> <version id>" of the same records
+	NewID     string
+	CopyETag  string
+	Status    int
+	Code      string
+	Fields    []KV
+	NewVid    string
+	NewVids   []string
+	Raw       gw.Resp
 }
 
 func (o *Obs) Line() string {
@@ -527,6 +528,17 @@ func (o *Op) ResolveRefs(hist []*Step) {
 			o.Vid = vids[len(vids)-1]
 			if o.VidRef == 2 {
 				o.Vid = vids[0]
+			}
+		}
+	}
+	for i := range o.Keys {
+		// batch entries "@ref": the newest version id issued so far for that key (none issued: no version id)
+		if o.Keys[i][1] == "@ref" {
+			o.Keys[i][1] = ""
+			for _, s := range hist {
+				if s.Op.B == o.B && s.Op.K == o.Keys[i][0] && s.Obs != nil && s.Obs.NewVid != "" {
+					o.Keys[i][1] = s.Obs.NewVid
+				}
 			}
 		}
 	}
@@ -1234,6 +1246,7 @@ func (w *World) Exec(o *Op) *Obs {
 	r := gw.Do(w.addr(), req)
 	if w.Hook != nil {
 		obs.Events = w.Hook.Drain(6*time.Millisecond, 400*time.Millisecond)
+		obs.EventVids = w.Hook.LastVids()
 	}
 	obs.Raw = r
 	obs.Status = r.Status
